@@ -318,3 +318,26 @@ func verifH_C19_discriminator_long() { verifLongMarkers(verifH_C19_discriminator
 
 //verif:harness id=C19 tier=thorough witness=end,rejected bounds="as foreign_go_values with markers of 2-5 bytes"
 func verifH_C19_foreign_go_values_long() { verifLongMarkers(verifH_C19_foreign_go_values) }
+
+//verif:harness id=C19 tier=quick,thorough witness=end,rejected bounds="rejected strings of particular classes, which a message might be tempted to treat specially (concrete texts): a numeric string, a number with exponent, a boolean word, null, an enum member in another letter case or padded with blanks, a date, an e-mail address, a URL, JSON text, a long string; each against type integer / number / boolean / array / object, enum [alpha, beta], pattern, format date, maxLength 2, minLength 40, top-level and inside an object property and an array item, all modes: no Reason and no reason-only message contains the rejected string"
+func verifH_C19_value_classes() {
+	verifMarkerReset()
+	values := []string{"31415926", "2.5e3", "true", "null", "Alpha", " alpha ", "ALPHA", "2024-02-30", "someone@example.test", "https://h.example/secret?token=1", `{"k":"v"}`, "0123456789012345678901234567890123456789x"}
+	v := values[verifChoose("value", len(values))]
+	verifMarkers = append(verifMarkers, v)
+	two, forty := uint64(2), uint64(40)
+	schemas := []*Schema{
+		{Type: &Types{"integer"}}, {Type: &Types{"number"}}, {Type: &Types{"boolean"}}, {Type: &Types{"array"}}, {Type: &Types{"object"}},
+		{Type: &Types{"string"}, Enum: []any{"alpha", "beta"}}, {Type: &Types{"string"}, Pattern: "^[q-z]{3}$"}, {Type: &Types{"string"}, Format: "date"},
+		{Type: &Types{"string"}, MaxLength: &two}, {Type: &Types{"string"}, MinLength: forty},
+		{Type: &Types{"integer", "boolean"}}, {OneOf: SchemaRefs{{Value: &Schema{Type: &Types{"integer"}}}, {Value: &Schema{Type: &Types{"boolean"}}}}},
+	}
+	s := schemas[verifChoose("schema", len(schemas))]
+	if s.VisitJSON(v) == nil {
+		return // not rejected: nothing to check
+	}
+	verifCheckLeaks(s, v, "value class")
+	verifCheckLeaks(&Schema{Type: &Types{"object"}, Properties: Schemas{"p": &SchemaRef{Value: s}}}, map[string]any{"p": v}, "value class in a property")
+	verifCheckLeaks(&Schema{Type: &Types{"array"}, Items: &SchemaRef{Value: s}}, []any{v}, "value class in an item")
+	verifReach("end")
+}
